@@ -94,6 +94,17 @@ func c14Reqs(tier string) []c14Req {
 		out = append(out, c14Req{Label: reg + ": typed call", Msgs: []string{`{"jsonrpc":"2.0","id":7,"method":"tools/call","params":{"name":"t","arguments":{"a":41,"b":"x"}}}`}, IDs: []string{"7"}, Reg: reg})
 		out = append(out, c14Req{Label: reg + ": typed call wrong type", Msgs: []string{`{"jsonrpc":"2.0","id":7,"method":"tools/call","params":{"name":"t","arguments":{"a":"notanumber"}}}`}, IDs: []string{"7"}, Reg: reg})
 	}
+	// argument values that come back in the answer, from the string classes a transport may mangle on its own
+	// (printf verbs, line breaks, SSE field names, U+2028, a 64 KiB+1 value)
+	for _, v := range []string{`100% %d %s %v %!(x) %%`, `a\nb\r\nc`, `data: x\nid: 7\nevent: e`, `a\u2028b\u2029c`, `\u0000\u001f`, `é😀`, strings.Repeat("z", 65537)} {
+		lbl := v
+		if len(lbl) > 24 {
+			lbl = lbl[:24] + "…"
+		}
+		out = append(out, c14Req{Label: "echo mode=" + lbl, Msgs: []string{`{"jsonrpc":"2.0","id":7,"method":"tools/call","params":{"name":"t","arguments":{"mode":"` + v + `"}}}`}, IDs: []string{"7"}, Reg: "all"})
+		out = append(out, c14Req{Label: "prompt x=" + lbl, Msgs: []string{`{"jsonrpc":"2.0","id":7,"method":"prompts/get","params":{"name":"p","arguments":{"x":"` + v + `"}}}`}, IDs: []string{"7"}, Reg: "all"})
+		out = append(out, c14Req{Label: "unknown tool name=" + lbl, Msgs: []string{`{"jsonrpc":"2.0","id":7,"method":"tools/call","params":{"name":"` + v + `"}}`}, IDs: []string{"7"}, Reg: "all"})
+	}
 	// sequences of two requests (the second answer must not depend on the transport either)
 	step := 9
 	if tier == "thorough" {
@@ -103,9 +114,13 @@ func c14Reqs(tier string) []c14Req {
 		for j := 1; j < len(singles); j += step * 2 {
 			a, b := singles[i], singles[j]
 			mb := strings.Replace(b.Msg, `"id":7`, `"id":8`, 1)
+			mb = strings.Replace(mb, `"id":"req-7"`, `"id":"req-8"`, 1)
 			idb := b.ReqID
-			if idb == "7" {
+			switch idb {
+			case "7":
 				idb = "8"
+			case `"req-7"`:
+				idb = `"req-8"`
 			}
 			out = append(out, c14Req{Label: a.Label + " ; " + b.Label, Msgs: []string{a.Msg, mb}, IDs: []string{a.ReqID, idb}, Reg: "all"})
 		}
